@@ -17,7 +17,7 @@ from .tape import Tape, derive_seed
 from .world import World, Violation, HarnessError, SimAbort, SimCrash
 
 XSIM_TMP = os.environ.get("XSIM_TMP", "/dev/shm")
-RUN_WALL = int(os.environ.get("XSIM_RUN_WALL", "60"))
+RUN_WALL = int(os.environ.get("XSIM_RUN_WALL", "240"))
 
 
 _DEVNULL = open(os.devnull, "w")
